@@ -281,6 +281,17 @@ static Verdict runCase(const Case& c, Info& info)
         info.tag("trailing_bytes_after_segment");
     if (zeroLen)
         info.tag("zero_length_segment");
+    for (const auto& ep : c.eps)
+        for (const auto& m : ep.msgs)
+        {
+            size_t total = 0;
+            for (const auto& sg : m.segs)
+                total += sg.len;
+            if (m.segmented && total >= 65495)
+                info.tag("reassembled_total_within_40_of_65535");
+            if (m.segmented && total == 65535)
+                info.tag("reassembled_total_65535");
+        }
     if (deliveredSegmented)
         info.tag("segmented_message_delivered");
     info.count("segmented_deliveries", deliveredSegmented);
@@ -321,6 +332,27 @@ static rc::Gen<Case> genCase(int tier)
                 sm.idWord = *anyInt<uint32_t>();
                 sm.seed = *rc::gen::arbitrary<uint32_t>();
                 int nSeg = sm.segmented ? *rc::gen::weightedOneOf<int>({{4, range<int>(2, 6)}, {1, range<int>(2, tier ? 40 : 12)}}) : 1;
+                // the top of the legal range: reassembled totals at / just below 65535 (16-bit length field) and around 2^15
+                if (sm.segmented && *range<int>(0, 24) == 0)
+                {
+                    size_t total = *rc::gen::weightedOneOf<size_t>({{3, rc::gen::map(range<size_t>(0, 40), [](size_t d) { return size_t(65535) - d; })},
+                                                                    {1, range<size_t>(32760, 32775)},
+                                                                    {1, range<size_t>(65000, 65535)}});
+                    nSeg = *range<int>(2, 48);
+                    size_t each = total / static_cast<size_t>(nSeg);
+                    size_t left = total;
+                    for (int s = 0; s < nSeg; ++s)
+                    {
+                        SegSpec sp;
+                        sp.len = static_cast<uint16_t>(s + 1 == nSeg ? left : each);
+                        left -= sp.len;
+                        sp.trailKind = *rc::gen::weightedElement<uint8_t>({{8, 0}, {1, 1}});
+                        sp.trailLen = *anyInt<uint8_t>();
+                        sm.segs.push_back(sp);
+                    }
+                    ep.msgs.push_back(sm);
+                    continue;
+                }
                 size_t budget = 65535;
                 for (int s = 0; s < nSeg; ++s)
                 {
